@@ -203,8 +203,25 @@ class StmtMixin(ExecBase):
         self.raise_(st, ctx, name, s.lineno)
 
     def ex_If(self, s, st, ctx, k):
+        # `if x is None` / `if x is not None` on a local option: refine the local in the non-None branch
+        t = s.test
+        refine = None
+        if isinstance(t, ast.Compare) and len(t.ops) == 1 and isinstance(t.left, ast.Name) and \
+                isinstance(t.comparators[0], ast.Constant) and t.comparators[0].value is None and \
+                isinstance(t.ops[0], (ast.Is, ast.IsNot)):
+            refine = (t.left.id, isinstance(t.ops[0], ast.IsNot))
+
+        def narrowed(st1, branch_true):
+            if refine is not None and refine[0] in st1.store and isinstance(st1.store[refine[0]], VOpt):
+                name, nonnone_when_true = refine
+                if branch_true == nonnone_when_true:
+                    st1.store[name] = st1.store[name].val
+                else:
+                    st1.store[name] = VNone()
+            return st1
         self.ev(s.test, st, ctx, lambda st1, c: self.truth_fork(
-            st1, ctx, c, lambda sa: self.ex_block(s.body, sa, ctx, k), lambda sb: self.ex_block(s.orelse, sb, ctx, k)))
+            st1, ctx, c, lambda sa: self.ex_block(s.body, narrowed(sa, True), ctx, k),
+            lambda sb: self.ex_block(s.orelse, narrowed(sb, False), ctx, k)))
 
     def ex_Try(self, s, st, ctx, k):
         if s.finalbody:
